@@ -33,6 +33,8 @@ ASSUMPTIONS = [
     "binding presence is simulated by stand-in modules in sys.modules / an import blocker on sys.meta_path installed before the first import of pyscsi",
     "open() and os.stat() are intercepted in the namespace of pyscsi.pyscsi.scsi_device; nothing else of the library is replaced",
     "a direct ISCSIDevice(url) without initiator name may pass any name to the binding (only explicit names and init_device's documented default are compared)",
+    "an explicitly empty initiator name given to init_device must reach the device class unchanged: the binding is opened as ISCSIDevice(url, '') opens it (differential; no opinion about the name itself)",
+    "init_device is exercised as pyscsi.utils.init_device and through the package re-export pyscsi.init_device, positionally and with keywords",
 ]
 
 OPENS = []
